@@ -314,6 +314,10 @@ def run_python(sc, fault=None, mirror_false=False):
             raise
         except Exception as e:  # noqa: BLE001 - the bindings raise plain Exception
             tag, states = ERRMAP.get(str(e), "Exception:" + str(e)), None
+        except BaseException as e:  # noqa: BLE001 - pyo3's PanicException derives from BaseException
+            if type(e).__name__ != "PanicException":
+                raise
+            tag, states = "Panic", None
     return tag, states, chk, goal, space
 
 
